@@ -27,7 +27,8 @@ CHECKS = {
               "DESIGN.md section 6 C04"),
     "C05": _c("Generated arrange chains and window-function mutates in all positions relative to filter/slice_head/"
               "select/rename/alias compared with the reference (stable sort with explicit null placement, per-partition "
-              "window values) - exact sequence on Polars, sequence modulo ties on SQLite.", "DESIGN.md section 6 C05"),
+              "window values) - exact sequence on Polars, sequence modulo ties on SQLite; cum_sum over tied keys and rank over "
+              "nullable keys without a nulls marker are decided by validity predicates.", "DESIGN.md section 6 C05"),
     "C06": _c("Generated joins (all kinds, predicates, name-collision configurations, prefix verbs on both sides) compared "
               "with a reference nested-loop join, a validity predicate for the result names, and probe columns through "
               "the original references of every reachable column.", "DESIGN.md section 6 C06"),
